@@ -15,7 +15,7 @@ for d in /verif/seeded/*/; do
   git reset -q --hard HEAD; git clean -qfd
   run_demo() { if grep -q "def test_" $d/demo.py && ! grep -q "__main__" $d/demo.py; then PYTHONPATH=$WT timeout 300 /venv/bin/python -m pytest -q -p no:cacheprovider $d/demo.py; else PYTHONPATH=$WT timeout 300 /venv/bin/python $d/demo.py; fi; }
   (cd $WT && run_demo) > /dev/null 2>&1; clean=$?
-  if git apply $d/patch.base.diff 2>/dev/null; then how=plain; elif git apply --3way $d/patch.base.diff 2>/dev/null && ! git diff --name-only --diff-filter=U | grep -q .; then how=3way; else echo "$id CONFLICT"; git reset -q --hard HEAD; continue; fi
+  if [ -f $d/patch.hand.diff ] && git apply $d/patch.hand.diff 2>/dev/null; then how=hand-rebased; elif git apply $d/patch.base.diff 2>/dev/null; then how=plain; elif git apply --3way $d/patch.base.diff 2>/dev/null && ! git diff --name-only --diff-filter=U | grep -q .; then how=3way; else echo "$id CONFLICT"; git reset -q --hard HEAD; continue; fi
   git diff HEAD > $d/patch.diff
   PYTHONPATH=$WT timeout 900 /venv/bin/python -m pytest -q -p no:cacheprovider --timeout=900 -x > /tmp/rebase_tests.log 2>&1; t=$?
   (cd $WT && run_demo) > /dev/null 2>&1; patched=$?
